@@ -62,6 +62,13 @@ def main():
             rep = common.Report(pid, a.tier)
             rep.fail("code under test raises during the check|%s at %s:%s" % (type(e).__name__, os.path.relpath(in_repo[-1].filename, common.REPO), in_repo[-1].name), {"traceback": text})
             rc = rep.finish({"evaluations": 1, "distinct_nontrivial": 2, "rule": "aborted: the code under test raised outside a monitored call", "samples": [{"error": repr(e)[:300]}]})
+        elif common.CURRENT_REPORT is not None and common.CURRENT_REPORT.pid == pid and common.CURRENT_REPORT.failures:
+            # the harness tripped AFTER violations had been recorded (typically over files or state an
+            # already reported divergence left behind): the recorded violations stand
+            print("HARNESS-ERROR property=%s (after %d recorded failure mechanisms) %s" % (pid, len(common.CURRENT_REPORT.failures), text[-600:]))
+            rep = common.CURRENT_REPORT
+            rep.inconc("the check aborted after recording these failures: %s" % type(e).__name__)
+            rc = rep.finish({"evaluations": 1, "distinct_nontrivial": 2, "rule": "aborted after recorded failures", "samples": [{"error": repr(e)[:300]}]})
         else:
             print("HARNESS-ERROR property=%s %s" % (pid, text))
             print("INCONCLUSIVE property=%s reason=harness error %s" % (pid, type(e).__name__))
